@@ -8,6 +8,7 @@ import (
 	"strings"
 	"sync"
 	"sync/atomic"
+	"time"
 
 	bigbuff "github.com/joeycumines/go-bigbuff"
 
@@ -21,6 +22,10 @@ type c19Stringer struct{ s string }
 func (s c19Stringer) String() string { return s.s }
 
 type c19Struct struct{ A int }
+
+// named types that share a kind with a predeclared type (not assignable to or from it)
+type c19MyInt int
+type c19MyString string
 
 var (
 	c19IntA, c19IntB = 41, 42
@@ -38,13 +43,17 @@ var (
 	tError           = reflect.TypeOf((*error)(nil)).Elem()
 	tStringer        = reflect.TypeOf((*fmt.Stringer)(nil)).Elem()
 	tStruct          = reflect.TypeOf(c19Struct{})
-	c19Types         = []reflect.Type{tInt, tString, tPtrInt, tSliceInt, tMap, tFunc, tChan, tAny, tError, tStringer, tStruct}
+	tMyInt           = reflect.TypeOf(c19MyInt(0))
+	tMyString        = reflect.TypeOf(c19MyString(""))
+	tDuration        = reflect.TypeOf(time.Duration(0))
+	c19Types         = []reflect.Type{tInt, tString, tPtrInt, tSliceInt, tMap, tFunc, tChan, tAny, tError, tStringer, tStruct, tMyInt, tMyString, tDuration}
 	// the value pool: every entry is an interface value that may be passed as an argument / returned
 	c19Values = []any{
 		nil, // untyped nil
 		0, 7, -3, "", "hello", &c19IntA, &c19IntB, (*int)(nil), []int{1, 2}, []int(nil), map[string]int{"a": 1}, map[string]int(nil),
 		c19Func, (func())(nil), c19Chan, (chan int)(nil), c19Err, c19Stringer{"s"}, &c19Stringer{"p"}, c19Struct{5}, &c19Struct{6},
 		3.5, int64(9), []string{"x"}, (<-chan int)(c19Chan), true,
+		c19MyInt(4), c19MyString("named"), time.Duration(5), time.Second,
 	}
 )
 
@@ -618,8 +627,8 @@ func c19Random(c *core.Ctx) {
 // c19Enum enumerates completely: every signature of arity <= 2 over a reduced type pool (non-variadic and variadic),
 // every argument list of length 0..3 over a reduced value pool, with CallResults to a correct target.
 func c19Enum(c *core.Ctx) {
-	types := []reflect.Type{tInt, tPtrInt, tAny, tError, tSliceInt}
-	vals := []any{nil, 7, &c19IntA, (*int)(nil), c19Err, []int{1}, "s"}
+	types := []reflect.Type{tInt, tPtrInt, tAny, tError, tSliceInt, tMyInt}
+	vals := []any{nil, 7, &c19IntA, (*int)(nil), c19Err, []int{1}, "s", c19MyInt(8)}
 	var sigs [][]reflect.Type
 	sigs = append(sigs, nil)
 	for _, a := range types {
@@ -665,7 +674,7 @@ func c19Enum(c *core.Ctx) {
 	c.Op("call", cases)
 	c.Count("cases_well_typed", well)
 	c.Count("cases_ill_typed", cases-well)
-	c.ExhaustiveFamily("signatures(arity<=2 over 5 types, +variadic) x arglists(len<=3 over 7 values)", cases)
+	c.ExhaustiveFamily("signatures(arity<=2 over 6 types, +variadic) x arglists(len<=3 over 8 values)", cases)
 	c.Nontrivial()
 	c.Sig("enum", cases, well)
 }
